@@ -132,7 +132,8 @@ def cases(draw, tier):
                            unique=True)) if n > 1 else []
     nanpos = sorted(nanpos)[:n - 1]
     container = draw(st.sampled_from(["ndarray", "ndarray", "list",
-                                      "series"]))
+                                      "series", "fortran", "strided",
+                                      "column-obs", "int", "float32"]))
     mperm = [draw(st.permutations(list(range(m)))) for _ in range(n)]
     fperm = draw(st.permutations(list(range(n))))
     shift = draw(st.sampled_from([0.0, 1.0, -7.5, 1e3, 0.1]))
@@ -151,6 +152,24 @@ def call(obs, ens, container="ndarray"):
         o, e = obs.tolist(), ens.tolist()
     elif container == "series":
         o, e = pd.Series(obs), pd.DataFrame(ens)
+    elif container == "fortran":
+        o, e = obs.copy(), np.asfortranarray(ens)
+    elif container == "strided":
+        big = np.zeros((ens.shape[0], 2 * ens.shape[1]))
+        big[:, ::2] = ens
+        bo = np.zeros(2 * len(obs))
+        bo[::2] = obs
+        o, e = bo[::2], big[:, ::2]
+    elif container == "column-obs":
+        o, e = obs.copy()[:, None], ens.copy()
+    elif container == "int" and np.all(obs[~np.isnan(obs)] == np.round(
+            obs[~np.isnan(obs)])) and not np.isnan(obs).any() \
+            and np.all(ens == np.round(ens)):
+        o, e = obs.astype(np.int64), ens.astype(np.int32)
+    elif container == "float32" and np.all(obs == obs.astype(np.float32)) \
+            and np.all(ens == ens.astype(np.float32)) \
+            and not np.isnan(obs).any():
+        o, e = obs.astype(np.float32), ens.astype(np.float32)
     else:
         o, e = obs.copy(), ens.copy()
     d, t = metrics.crps(o, e)
